@@ -29,7 +29,8 @@ def time_family_network(w, scn, n_links=None):
 
 
 def _status(w, v):
-    return w.network.LinkStatus.Open if v else w.network.LinkStatus.Closed
+    LS = w.network.LinkStatus
+    return {0: LS.Closed, 1: LS.Open, 2: LS.Active}[int(v)]
 
 
 def _cond(w, wn, c):
@@ -60,11 +61,11 @@ class RunHangs(Exception):
     """run_sim did not return within the wall-clock limit (it must always terminate, C16)"""
 
 
-def run_wntr(w, wn, limit=180, **kw):
+def run_wntr(w, wn, limit=180, sim=None, **kw):
     import signal
     import threading
     import warnings
-    sim = w.sim.WNTRSimulator(wn)
+    sim = sim or w.sim.WNTRSimulator(wn)
     use_alarm = threading.current_thread() is threading.main_thread()
 
     def on_alarm(signum, frame):
@@ -91,6 +92,7 @@ def build(w, s):
     o.time.hydraulic_timestep = s["H"]
     o.time.pattern_timestep = s["Pat"]
     o.time.pattern_start = s["PatStart"]
+    o.time.pattern_interpolation = bool(s.get("interp", False))
     o.time.report_timestep = "ALL" if s.get("all", True) else s["H"]
     o.time.rule_timestep = s.get("Rs", 360)
     o.time.duration = s["Dur"]
@@ -245,6 +247,7 @@ def encode_trace(s, rows, props):
         raise TypeError(type(x))
     sc = enc({k: v for k, v in s.items() if k not in ("rules",)})
     sc["props"] = list(props)
+    sc["interp"] = bool(s.get("interp", False))
     # TLC cannot read empty JSON objects as records reliably: make sure patterns has at least one key
     if not sc["patterns"]:
         sc["patterns"] = {"_none": []}
